@@ -142,6 +142,9 @@ def sweep_roles(prog, m):
         def is_read(a, arr, col):
             return isinstance(a, App) and a.name in ('read', 'cell?') and a.args[0] == arr and a.args[-1] == Rat.const(C[col])
 
+        keyvals = {repr(e[1].value) for e in k.events if e[0] == 'store' and e[1].idx and e[1].idx[0] == Rat.const(C['TN_KEY_ID']) and
+                   isinstance(e[1].value, Rat) and not e[1].value.is_const() and getattr(e[1].arr, 'name', None) not in (rcts, aes, data, raster)}
+
         def cls(v):
             if isinstance(v, tuple) and len(v) == 2 and v[0] == 'param':
                 return syms.get(v[1])
@@ -149,6 +152,8 @@ def sweep_roles(prog, m):
                 return None
             if v.is_const():
                 return 'etype'
+            if repr(v) in keyvals:
+                return 'key'            # the value the sweep stores as the node's key, handed on as the local it was computed into
             for nm, role in syms.items():
                 if v == Rat.sym(nm):
                     return role
